@@ -727,6 +727,23 @@ def custom_attribute_cities(chk, uwg):
                'and UCM.facAbsor follow from them' % '; '.join(o[0] for o in V.OVERRIDE_SETS), mismatches=bad, branches=br)
 
 
+# ------------------------------------------------------------------------------- sixth round: used, not only stored
+def sixth_round_ties(chk, uwg):
+    """Every oracle above reads the overridden ATTRIBUTE after generate(). Sixth round (families in harness/w2_util.py):
+    (a) customs whose REFERENCE value of an overridable attribute lies at a limit of the range (windowless, shgc 0, black /
+    white, fully vegetated roof) - a guard on the reference value is the identity on the shipped library (glazing 0.006..0.38);
+    (b) the override is what the SIMULATION uses: twin cities that differ only in reference values the override replaces
+    must be one and the same simulation (records and end-of-day building state bit for bit), for custom archetypes of every
+    provenance (constructor, from_dict, deep copy of an un-pickled library cell, pickle), inside the vegetation season."""
+    import w2_util as W
+    n, bad, br = W.limit_reference_cities(chk, uwg)
+    chk.direct('overrides-on-customs-with-reference-values-at-the-limits(windowless, shgc 0 / 1, albedo 0 / 1, roof vegetation 1)',
+               n, n, W.LIMIT_RULE, mismatches=bad, branches=br)
+    n, bad, br = W.override_twins(chk, uwg)
+    chk.direct('override-is-what-is-simulated(twin cities differing only in replaced reference values, customs of every provenance)',
+               n, n, W.TWIN_RULE, mismatches=bad, branches=br)
+
+
 def run(chk):
     early = circumstance_start(chk)
     c07.run(chk, focus='C08', module=MODULE, theorems=THEOREMS)
@@ -737,6 +754,7 @@ def run(chk):
     overrides_vs_other_parameters(chk, uwg, pristine)
     near_limit_routes(chk, uwg, pristine)
     custom_attribute_cities(chk, uwg)
+    sixth_round_ties(chk, uwg)
     circumstance_ties(chk, uwg, pristine, early)
 
 
